@@ -50,6 +50,23 @@ func main() {
 		cmdSelftest(os.Args[2:])
 	case "pristine":
 		cmdPristine(os.Args[2:])
+	case "gendoc": // goldsim gendoc <generator> <seed>: print one generated document (for inspection)
+		if len(os.Args) < 4 {
+			os.Exit(2)
+		}
+		var sd uint64
+		fmt.Sscan(os.Args[3], &sd)
+		r := NewRng(sd)
+		switch os.Args[2] {
+		case "struct":
+			os.Stdout.Write(genStruct(r))
+		case "longline":
+			os.Stdout.Write(genLongLine(r))
+		case "heading":
+			os.Stdout.Write(genHeadingDoc(r))
+		default:
+			os.Stdout.Write(genFamily(r, os.Args[2]))
+		}
 	default:
 		fmt.Fprintln(os.Stderr, "unknown command", os.Args[1])
 		os.Exit(2)
